@@ -147,6 +147,7 @@ type Sim struct {
 	Policy     Policy
 	StepCap    int
 	Deadline   time.Time
+	SleepBound time.Duration // a library goroutine asleep in a retry loop for this long counts as never returning (0 = never)
 	StallAfter time.Duration // run the livelock detector when nothing has quiesced for this long (0 = never)
 	Stats      Stats
 	hash       uint64
@@ -412,7 +413,7 @@ func (s *Sim) Run() Verdict {
 					spin = append(spin, g)
 				}
 			}
-			return Verdict{Kind: "livelock", Detail: "a goroutine has been running in the same function for the whole observation window while burning CPU; the top-level call has not returned", Steps: s.Stats.Steps, TraceHash: s.hash, Blocked: spin}
+			return Verdict{Kind: "livelock", Detail: "a goroutine of the library has been spinning (or asleep in a retry loop) in the same function for the whole observation window; the top-level call has not returned", Steps: s.Stats.Steps, TraceHash: s.hash, Blocked: spin}
 		}
 		if !ok {
 			return Verdict{Kind: "watchdog", Detail: "no quiescence before the wall-clock deadline: " + snap.Why, Steps: s.Stats.Steps, TraceHash: s.hash, Blocked: snap.Others}
